@@ -1,0 +1,28 @@
+//go:build verif
+
+package strmap
+
+import "github.com/cloudwego/gopkg/internal/hash/maphash"
+
+// Read-only projections for the /verif trace recorder (StrMap specification binding).
+
+// VerifTable returns the slot of every item (in stored order) and a copy of the hashtable.
+func (m *StrMap[V]) VerifTable() (slots []uint32, hashtable []int32) {
+	slots = make([]uint32, len(m.items))
+	for i := range m.items {
+		slots[i] = m.items[i].slot
+	}
+	hashtable = append([]int32(nil), m.hashtable...)
+	return
+}
+
+// VerifSlot returns the hashtable slot a probe string maps to (false when the table is empty).
+func (m *StrMap[V]) VerifSlot(s string) (uint32, bool) {
+	if len(m.hashtable) == 0 {
+		return 0, false
+	}
+	return uint32(maphash.String(m.seed, s)) % uint32(len(m.hashtable)), true
+}
+
+// VerifMap exposes the key index of a Str2Str.
+func (sm *Str2Str) VerifMap() *StrMap[int] { return sm.strMap }
